@@ -170,6 +170,24 @@ def increments(facts, res):
                 incs.append((counter_field(kids(x)[0]), to_sym(kids(x)[1], sym_of, facts), x))
             elif x.get("k") == "UnaryOperator" and x.get("op") == "++" and counter_field(kids(x)[0]):
                 incs.append((counter_field(kids(x)[0]), sympy.Integer(1), x))
+            elif x.get("k") in ("CallExpr", "CXXMemberCallExpr") and tbf.call_base(x) is not None:
+                # an increment through a member function of the state record: `counters.add...(a, b)` with `field += f(params)` inside
+                b0 = strip(tbf.call_base(x))
+                if b0.get("k") in ("MemberExpr", "CXXDependentScopeMemberExpr") and b0.get("name") in cfields:
+                    rec = [f_["t"].split("::")[-1] for f_ in facts.cls(cls).get("fields", []) if f_["name"] == b0["name"]]
+                    cands = [g for g in facts.functions if g["name"] == tbf.callee_name(x) and tbf.body(g) is not None and not g.get("inst")
+                             and rec and (g.get("cls") or "").split("::")[-1] == rec[0] and len(g["params"]) == len(tbf.call_args(x))]
+                    if len(cands) == 1:
+                        g = cands[0]
+                        sub = {p_["did"]: to_sym(a_, sym_of, facts) for p_, a_ in zip(g["params"], tbf.call_args(x))}
+                        rfields = set(f_["name"] for c_ in facts.classes if c_["name"].split("::")[-1] == rec[0] for f_ in c_.get("fields", []))
+                        for y in walk(tbf.body(g)):
+                            t_ = strip(kids(y)[0]) if y.get("k") in ("CompoundAssignOperator", "UnaryOperator") and kids(y) else None
+                            if t_ is not None and t_.get("k") in ("MemberExpr", "CXXDependentScopeMemberExpr") and t_.get("name") in rfields and (not kids(t_) or strip(kids(t_)[0]).get("k") == "CXXThisExpr"):
+                                if y.get("k") == "CompoundAssignOperator" and y.get("op") == "+=":
+                                    incs.append((t_["name"], to_sym(kids(y)[1], sub, facts), x))
+                                elif y.get("k") == "UnaryOperator" and y.get("op") == "++":
+                                    incs.append((t_["name"], sympy.Integer(1), x))
         n += 1
         res.instance("C18.2.increment", "%s::%s" % (cls, op), facts.loc(m), "counters.%s += %s (documented: %s)" % (field, [str(i[1]) for i in incs], want))
         f = tbf.rel(facts.path_of(m))
